@@ -215,24 +215,10 @@ theorem ext_ty_succ : ∀ d, Ext (Ty.parse d) (Ty.parse (d + 1))
     unfold Ty.parse
     ext_tac
 
-theorem ext_intConstant_succ : ∀ d, Ext (IntConstant.parse d) (IntConstant.parse (d + 1))
-  | 0 => fun s hs => absurd rfl hs
-  | d + 1 => by
-    have ih := ext_intConstant_succ d
-    unfold IntConstant.parse
-    ext_tac
-
-theorem ext_exponent_succ (d : Nat) : Ext (exponent d) (exponent (d + 1)) := by
-  have := ext_intConstant_succ d; unfold exponent; ext_tac
-
-theorem ext_double_succ (d : Nat) : Ext (DoubleConstant.parse d) (DoubleConstant.parse (d + 1)) := by
-  have := ext_intConstant_succ d; have := ext_exponent_succ d; unfold DoubleConstant.parse; ext_tac
-
 theorem ext_constValue_succ : ∀ d, Ext (ConstValue.parse d) (ConstValue.parse (d + 1))
   | 0 => fun s hs => absurd rfl hs
   | d + 1 => by
     have ih := ext_constValue_succ d
-    have := ext_intConstant_succ (d + 1); have := ext_double_succ (d + 1)
     unfold ConstValue.parse
     ext_tac
 
@@ -248,12 +234,10 @@ theorem ext_function_succ (d : Nat) : Ext (Function.parse d) (Function.parse (d 
   have := ext_type_succ d; have := ext_field_succ d; unfold Function.parse; ext_tac
 
 theorem ext_item_succ (d : Nat) : Ext (Item.parse d) (Item.parse (d + 1)) := by
-  have := ext_type_succ d; have := ext_constValue_succ d; have := ext_intConstant_succ d
+  have := ext_type_succ d; have := ext_constValue_succ d
   have := ext_structLike_succ d; have := ext_function_succ d
   have h1 : Ext (Typedef.parse d) (Typedef.parse (d + 1)) := by unfold Typedef.parse; ext_tac
   have h2 : Ext (Constant.parse d) (Constant.parse (d + 1)) := by unfold Constant.parse; ext_tac
-  have h3 : Ext (EnumValue.parse d) (EnumValue.parse (d + 1)) := by unfold EnumValue.parse; ext_tac
-  have h4 : Ext (Enum.parse d) (Enum.parse (d + 1)) := by unfold Enum.parse; ext_tac
   have h5 : Ext (Struct.parse d) (Struct.parse (d + 1)) := by unfold Struct.parse; ext_tac
   have h6 : Ext (Union.parse d) (Union.parse (d + 1)) := by unfold Union.parse; ext_tac
   have h7 : Ext (Exception.parse d) (Exception.parse (d + 1)) := by unfold Exception.parse; ext_tac
@@ -272,8 +256,6 @@ theorem ext_of_succ {α} (f : Nat → P α) (h : ∀ d, Ext (f d) (f (d + 1))) :
 
 theorem ext_ty {d d'} (h : d ≤ d') : Ext (Ty.parse d) (Ty.parse d') := ext_of_succ _ ext_ty_succ h
 theorem ext_type {d d'} (h : d ≤ d') : Ext (Type.parse d) (Type.parse d') := ext_of_succ _ ext_type_succ h
-theorem ext_intConstant {d d'} (h : d ≤ d') : Ext (IntConstant.parse d) (IntConstant.parse d') := ext_of_succ _ ext_intConstant_succ h
-theorem ext_double {d d'} (h : d ≤ d') : Ext (DoubleConstant.parse d) (DoubleConstant.parse d') := ext_of_succ _ ext_double_succ h
 theorem ext_constValue {d d'} (h : d ≤ d') : Ext (ConstValue.parse d) (ConstValue.parse d') := ext_of_succ _ ext_constValue_succ h
 theorem ext_fileD {d d'} (h : d ≤ d') : Ext (File.parseD d) (File.parseD d') := ext_of_succ _ ext_fileD_succ h
 
